@@ -27,6 +27,7 @@ type srvProto interface {
 	Canon(b []byte) ([]byte, bool) // canonical re-encoding of the library decoding of b
 	MsgBytes(m interface{}) []byte
 	Valid(i int, t *simrt.Tape) []byte
+	Mutate(b []byte, t *simrt.Tape) ([]byte, string)
 	ExpectPeer(from net.Addr) string
 	Sender(t *simrt.Tape) net.Addr
 }
@@ -114,6 +115,8 @@ func (srv4) Valid(i int, t *simrt.Tape) []byte {
 	return m.ToBytes()
 }
 
+func (srv4) Mutate(b []byte, t *simrt.Tape) ([]byte, string) { return mutateV4(b, t) }
+
 func (srv4) ExpectPeer(from net.Addr) string {
 	u := from.(*net.UDPAddr)
 	if u.IP == nil || u.IP.To4().Equal(net.IPv4zero) {
@@ -123,7 +126,7 @@ func (srv4) ExpectPeer(from net.Addr) string {
 }
 
 func (srv4) Sender(t *simrt.Tape) net.Addr {
-	port := []int{68, 1068, 2068, 0, 65535}[t.Weighted(4, 2, 2, 1, 1)]
+	port := []int{68, 1068, 2068, 0, 65535, 67}[t.Weighted(4, 2, 2, 1, 1, 2)] // 67: relay agents send from the server port
 	switch t.Weighted(4, 2, 2, 1) {
 	case 1:
 		return &net.UDPAddr{IP: net.IPv4zero, Port: port} // 16-byte form of 0.0.0.0
@@ -225,6 +228,8 @@ func (srv6) Valid(i int, t *simrt.Tape) []byte {
 	return d.ToBytes()
 }
 
+func (srv6) Mutate(b []byte, t *simrt.Tape) ([]byte, string) { return mutateV6Top(b, t) }
+
 func (srv6) ExpectPeer(from net.Addr) string { return from.String() }
 
 func (srv6) Sender(t *simrt.Tape) net.Addr {
@@ -272,6 +277,7 @@ type srvState struct {
 
 	rx   []*srvRx
 	invs []*srvInv
+	sent [][]byte // datagrams generated so far (before truncation / corruption faults)
 
 	serveReturned bool
 	serveRetSeq   int
@@ -453,6 +459,29 @@ func (st *srvState) datagram(i int, corruptNum int) ([]byte, string) {
 	s := st.s
 	b := st.p.Valid(i, t)
 	tag := "valid"
+	switch t.Weighted(12, 2, 2, 4) {
+	case 1:
+		// an identical copy of an earlier datagram (a retransmission): one more dispatch is due
+		if len(st.sent) > 0 {
+			b = st.sent[t.Choose(len(st.sent))]
+			tag = "valid-repeat"
+			s.Fault("repeat-of-earlier-datagram")
+		}
+	case 2:
+		// same exchange (header, transaction id, hardware address) as an earlier datagram, other options
+		if len(st.sent) > 0 {
+			if m, w := st.p.Mutate(st.sent[t.Choose(len(st.sent))], t); w != "" {
+				b, tag = m, "same-exchange "+w
+				s.Fault("same-exchange-as-earlier-datagram")
+			}
+		}
+	case 3:
+		if m, w := st.p.Mutate(b, t); w != "" {
+			b, tag = m, w
+			s.Fault("shape-mutation")
+		}
+	}
+	st.sent = append(st.sent, b)
 	switch t.Weighted(12, 2, 1, 1, 1) {
 	case 1:
 		cut := t.Choose(len(b))
